@@ -44,6 +44,8 @@ type Job struct {
 	// Mode "trace": one full scan (Units ignored) reporting the offsets after every object.
 	Mode  string `json:"mode"`
 	Units []int  `json:"units"`
+	// HeaderFirst (cut mode): call Header() first, ignore what it returns, then run the Scan loop
+	HeaderFirst bool `json:"header_first,omitempty"`
 	// Canon: also return the canonical rendering of every object (trace mode; for replays)
 	Canon bool `json:"canon,omitempty"`
 }
@@ -62,6 +64,8 @@ type Obs struct {
 	Crash    bool   `json:"crash,omitempty"`
 	CrashMsg string `json:"crash_msg,omitempty"`
 	Hang     bool   `json:"hang,omitempty"`
+	// Skipped: not run, because the runner gave up after GiveUpAfter hangs (the run fails anyway)
+	Skipped bool `json:"skipped,omitempty"`
 
 	// offsets (modes stop, trace)
 	FSB  []int64 `json:"fsb,omitempty"`  // trace: after every returned object; stop: [value at the stop]
@@ -178,6 +182,9 @@ func newScanner(data []byte, j *Job) *osmpbf.Scanner {
 
 func scanAll(data []byte, j *Job) ([]uint64, error) {
 	s := newScanner(data, j)
+	if j.HeaderFirst {
+		s.Header() // a caller that only logs the header error and goes on to the Scan loop
+	}
 	var objs []uint64
 	for s.Scan() {
 		objs = append(objs, Tok(s.Object()))
@@ -216,7 +223,9 @@ func runUnit(j *Job, u int) Obs {
 		o.PFSB = append(o.PFSB, s.PreviousFullyScannedBytes())
 		s.Close()
 	case "stop":
-		s := newScanner(j.Data, j)
+		ctx, cancel := context.WithCancel(context.Background())
+		s := osmpbf.New(ctx, bytes.NewReader(j.Data), j.Procs)
+		s.SkipNodes, s.SkipWays, s.SkipRelations = j.Skip[0], j.Skip[1], j.Skip[2]
 		n := 0
 		for n < u && s.Scan() {
 			o.Objs = append(o.Objs, Tok(s.Object()))
@@ -224,8 +233,18 @@ func runUnit(j *Job, u int) Obs {
 		}
 		o.StopShort = n < u
 		fsb, pfsb := s.FullyScannedBytes(), s.PreviousFullyScannedBytes()
-		o.FSB, o.PFSB = []int64{fsb}, []int64{pfsb}
+		// stop the scan (Close for even k, cancelling the context for odd k) and read the two
+		// offsets once more: they are reported "at any point of a scan", also after it was stopped
+		if u%2 == 0 {
+			s.Close()
+		} else {
+			cancel()
+			s.Scan()
+		}
+		o.FSB = []int64{fsb, s.FullyScannedBytes()}
+		o.PFSB = []int64{pfsb, s.PreviousFullyScannedBytes()}
 		s.Close()
+		cancel()
 		if fsb >= 0 && fsb <= int64(len(j.Data)) {
 			r, err := scanAll(j.Data[fsb:], j)
 			o.Resumed, o.ResumedErr = r, errClass(err)
@@ -296,6 +315,9 @@ type Runner struct {
 	// replaced after MaxUnits scans to bound its address space.
 	MaxUnits int
 	served   int
+	// GiveUpAfter: once that many units have hung, the remaining units of every job are returned
+	// as Skipped without being run (each hanging unit costs a watchdog timeout)
+	GiveUpAfter int
 	// Exe is the worker binary ("" = this executable); a second build of the same harness (e.g.
 	// with CGO_ENABLED=0, so that osmpbf inflates with compress/zlib instead of czlib).
 	Exe string
@@ -332,7 +354,7 @@ func BuildVariant(name, outdir, suffix string, env ...string) (string, error) {
 	return exe, nil
 }
 
-func NewRunner() *Runner { return &Runner{Timeout: 20 * time.Second, MaxUnits: 400} }
+func NewRunner() *Runner { return &Runner{Timeout: 8 * time.Second, MaxUnits: 400, GiveUpAfter: 4} }
 
 func (r *Runner) start() error {
 	exe := r.Exe
@@ -382,6 +404,18 @@ func (r *Runner) stop() {
 	}
 }
 
+// after a few hangs the watchdog becomes short: the run is going to fail anyway and every
+// further hanging unit would cost a full timeout
+func (r *Runner) timeout() time.Duration {
+	if r.Hangs >= 3 && r.Timeout > 1500*time.Millisecond {
+		return 1500 * time.Millisecond
+	}
+	return r.Timeout
+}
+
+// GaveUp: too many hangs, nothing more is run.
+func (r *Runner) GaveUp() bool { return r.GiveUpAfter > 0 && r.Hangs >= r.GiveUpAfter }
+
 // Close ends the worker.
 func (r *Runner) Close() { r.stop() }
 
@@ -409,6 +443,12 @@ func (r *Runner) Run(j Job) ([]Obs, error) {
 	}
 	var res []Obs
 	for len(res) < len(units) {
+		if r.GaveUp() {
+			for _, u := range units[len(res):] {
+				res = append(res, Obs{Unit: u, Skipped: true})
+			}
+			break
+		}
 		if r.cmd == nil {
 			if err := r.start(); err != nil {
 				return nil, err
@@ -469,7 +509,7 @@ func (r *Runner) Run(j Job) ([]Obs, error) {
 				case l == "E":
 					done = true
 				}
-			case <-time.After(r.Timeout):
+			case <-time.After(r.timeout()):
 				r.stop()
 				r.Hangs++
 				if inflight < 0 {
